@@ -1208,3 +1208,24 @@ pub fn starttls_strays(ctx: &Ctx) -> Report {
     rep.sample(json!({"lane":"starttls_strays","stray_kinds":["unsolicited notification (ID 0)","single-operation response for an unknown ID","search entry for an unknown ID"],"refusal_codes":codes}));
     rep
 }
+
+// ---------------- responses for a Search whose reader has gone away ----------------
+
+/// Responses that arrive for a Search nobody reads any more (stream dropped, finished early, search()
+/// call cancelled; the server was not told) are delivered to nobody and disturb nobody: the Search
+/// running next to it sees all of its own responses and a later operation gets its answer.
+pub fn dropped_neighbour(ctx: &Ctx) -> Report {
+    let n = ctx.n(4_000, 2_000_000);
+    par_cases(ctx, "dropped_neighbour", n, ctx.secs(10, 200), |i, rng, rep| {
+        let o = crate::lanes::c10::dropped_neighbour_case(rng);
+        let replay = json!({"lane":"dropped_neighbour","case":i});
+        if o.b != o.b_expected {
+            rep.violation(format!("C01:operation-disturbed:search-next-to-a-search-without-a-reader:{}", o.how), format!("{} ({}): want {:?} got {:?}; driver {}", o.how, if o.split { "rest sent later" } else { "one burst" }, o.b_expected, o.b, o.driver), replay.clone());
+        }
+        if o.later != "Ok:t:later" {
+            rep.violation(format!("C01:operation-disturbed:operation-after-responses-for-a-search-without-a-reader:{}", o.how), format!("{}: later delete -> {}; driver {}", o.how, o.later, o.driver), replay);
+        }
+        rep.count(&format!("responses_for_a_search_without_a_reader:{}", o.how), 1);
+        rep.case(Some(fnv(format!("{}{}{}", o.how, o.split, o.b_expected.len()).as_bytes())));
+    })
+}
